@@ -469,6 +469,122 @@ func extractC12Env(c *ctxT) {
 	sb.WriteString("structure AutoIncr where\n  default : Nat\n  inc : Nat\n  incOf : String\n  ret : String\n  stmts : List String\n  deriving DecidableEq, Repr\n\n")
 	sb.WriteString(fmt.Sprintf("def autoIncr : AutoIncr := ⟨%d, %d, %s, %s, %s⟩\n\n", def_, inc, leanStr(incOf), leanStr(retVar), leanStrs(aiStmts)))
 
+	// ---- 6. what a genesis export carries ----
+	type expT struct {
+		Field string `json:"field"`
+		Call  string `json:"call"`
+		Scope string `json:"scope"`
+	}
+	var exps []expT
+	if fd := c.findFunc("x/crosschain/keeper", "", "ExportGenesis"); fd != nil && fd.Body != nil {
+		stateVar := ""
+		var walk func(stmts []ast.Stmt, scope string)
+		record := func(lhs ast.Expr, call, scope string) {
+			if se, ok := lhs.(*ast.SelectorExpr); ok && exprIdent(se.X) == stateVar && stateVar != "" {
+				exps = append(exps, expT{se.Sel.Name, call, scope})
+			}
+		}
+		callText := func(ce *ast.CallExpr) string {
+			var as []string
+			for _, a := range ce.Args {
+				if _, isFn := a.(*ast.FuncLit); isFn || exprIdent(a) == "ctx" {
+					continue
+				}
+				as = append(as, c12ws(c.src(a)))
+			}
+			return c12ws(c.src(ce.Fun)) + "(" + strings.Join(as, ", ") + ")"
+		}
+		walk = func(stmts []ast.Stmt, scope string) {
+			for _, st := range stmts {
+				switch s := st.(type) {
+				case *ast.AssignStmt:
+					if len(s.Rhs) == 1 {
+						if ue, ok := s.Rhs[0].(*ast.UnaryExpr); ok && len(s.Lhs) == 1 {
+							if cl, ok := ue.X.(*ast.CompositeLit); ok && typeName(cl.Type) == "GenesisState" {
+								stateVar = exprIdent(s.Lhs[0])
+								for _, el := range cl.Elts {
+									if kv, ok := el.(*ast.KeyValueExpr); ok {
+										call := c12ws(c.src(kv.Value))
+										if ce, ok := kv.Value.(*ast.CallExpr); ok {
+											call = callText(ce)
+										}
+										exps = append(exps, expT{exprIdent(kv.Key), call, scope})
+									}
+								}
+								continue
+							}
+						}
+						call := c12ws(c.src(s.Rhs[0]))
+						if ce, ok := s.Rhs[0].(*ast.CallExpr); ok {
+							call = callText(ce)
+						}
+						record(s.Lhs[0], call, scope)
+					}
+				case *ast.ExprStmt:
+					if ce, ok := s.X.(*ast.CallExpr); ok {
+						for _, a := range ce.Args {
+							if fl, ok := a.(*ast.FuncLit); ok {
+								ast.Inspect(fl.Body, func(n ast.Node) bool {
+									if as, ok := n.(*ast.AssignStmt); ok && len(as.Lhs) == 1 {
+										record(as.Lhs[0], callText(ce), scope)
+									}
+									return true
+								})
+							}
+						}
+					}
+				case *ast.RangeStmt:
+					walk(s.Body.List, c12ws(c.src(s.X)))
+				case *ast.IfStmt:
+					if s.Init != nil {
+						if as, ok := s.Init.(*ast.AssignStmt); ok && len(as.Rhs) == 1 {
+							if ce, ok := as.Rhs[0].(*ast.CallExpr); ok {
+								for _, b := range s.Body.List {
+									if bs, ok := b.(*ast.AssignStmt); ok && len(bs.Lhs) == 1 {
+										record(bs.Lhs[0], callText(ce), scope)
+									}
+								}
+								continue
+							}
+						}
+					}
+					walk(s.Body.List, scope)
+				}
+			}
+		}
+		walk(fd.Body.List, "")
+	}
+	var stateFields []string
+	if st, ok := c.structs("x/crosschain/types")["GenesisState"]; ok {
+		for _, f := range st.Fields.List {
+			for _, n := range f.Names {
+				stateFields = append(stateFields, n.Name)
+			}
+		}
+	}
+	var imports []string
+	if fd := c.findFunc("x/crosschain/keeper", "", "InitGenesis"); fd != nil && fd.Body != nil {
+		seen := map[string]bool{}
+		ast.Inspect(fd.Body, func(n ast.Node) bool {
+			if se, ok := n.(*ast.SelectorExpr); ok && exprIdent(se.X) == "state" && !seen[se.Sel.Name] {
+				seen[se.Sel.Name] = true
+				imports = append(imports, se.Sel.Name)
+			}
+			return true
+		})
+	}
+	c.facts["C12.genesisExports"] = exps
+	c.facts["C12.genesisStateFields"] = stateFields
+	c.facts["C12.genesisImports"] = imports
+	var el []string
+	for _, e := range exps {
+		el = append(el, "("+leanStr(e.Field)+", "+leanStr(e.Call)+", "+leanStr(e.Scope)+")")
+	}
+	sb.WriteString("/-- `ExportGenesis`: every field of the exported state with the keeper call that fills it (ctx and callbacks dropped) and\nthe `range` expression it sits under (\"\" = none) -/\n")
+	sb.WriteString("def genesisExports : List (String × String × String) := [\n  " + strings.Join(el, ",\n  ") + "\n]\n\n")
+	sb.WriteString("/-- the fields of `types.GenesisState` -/\ndef genesisStateFields : List String := " + leanStrs(stateFields) + "\n\n")
+	sb.WriteString("/-- the fields of the state `InitGenesis` reads, in order of first use -/\ndef genesisImports : List String := " + leanStrs(imports) + "\n\n")
+
 	sb.WriteString("end FxVerif.Gen.C12Env\n")
 	c.write("C12Env.lean", sb.String())
 }
